@@ -68,9 +68,10 @@ def build_repo(log, asan=False):
             return d, key, 0.0
         t0 = time.time()
         # keep the cache small: remove older library builds
-        for old in glob.glob(os.path.join(CACHE, "asan-*" if asan else "lib-*")):
-            if old != d:
-                shutil.rmtree(old, ignore_errors=True)
+        others = sorted((o for o in glob.glob(os.path.join(CACHE, "asan-*" if asan else "lib-*")) if o != d),
+                        key=os.path.getmtime, reverse=True)
+        for old in others[2:]:
+            shutil.rmtree(old, ignore_errors=True)
         os.makedirs(os.path.join(d, "obj"), exist_ok=True)
         cpps = [p for p in repo_sources() if p.endswith(".cpp") and not p.endswith("par_sparsify.cpp")
                 and "/profiling/" not in p]
@@ -101,11 +102,13 @@ def build_harness(name, libdir, log, extra=""):
     for p in [src] + sorted(glob.glob(os.path.join(VERIF, "harness", "*.hpp"))):
         with open(p, "rb") as f:
             h.update(f.read())
+    h.update(extra.encode())
     exe = os.path.join(libdir, f"{name}-{h.hexdigest()[:10]}")
     with Lock("harness-" + name):
         if os.path.exists(exe):
             return exe
-        for old in glob.glob(os.path.join(libdir, name + "-*")):
+        olds = sorted(glob.glob(os.path.join(libdir, name + "-*")), key=os.path.getmtime, reverse=True)
+        for old in olds[3:]:
             os.remove(old)
         r = sh(f"mpicxx {CXXFLAGS} -I{VERIF}/harness {extra} {src} {libdir}/libraptor.a -llapack -lblas -o {exe}")
         if r.returncode != 0:
@@ -193,9 +196,11 @@ def lean_closure(module):
 def audit_axioms(module, theorems, log):
     """#print axioms for every property theorem; returns {theorem: [axioms]} (None = not found)"""
     os.makedirs(WORK, exist_ok=True)
-    f = os.path.join(WORK, f"audit_{module.split('.')[-1]}_{os.getpid()}.lean")
+    modules = [module] if isinstance(module, str) else list(module)
+    f = os.path.join(WORK, f"audit_{modules[0].split('.')[-1]}_{os.getpid()}.lean")
     with open(f, "w") as fh:
-        fh.write(f"import {module}\n")
+        for m_ in modules:
+            fh.write(f"import {m_}\n")
         for t in theorems:
             fh.write(f"#print axioms {t}\n")
     r = sh(["lake", "env", "lean", f], cwd=LEAN)
